@@ -249,6 +249,15 @@ func run(c *core.Ctx) {
 		{"rsa1024-expired", devCert("f9 expired", &k1024.PublicKey, root, rootKey, now.Add(-48*time.Hour), now.Add(-time.Hour)), k1024, false},
 		{"rsa1024-not-yet-valid", devCert("f9 future", &k1024.PublicKey, root, rootKey, now.Add(24*time.Hour), now.Add(48*time.Hour)), k1024, false},
 	}
+	// an impostor that shares issuer NAME and SERIAL NUMBER with a genuine device certificate: issued by a CA with the
+	// root's subject name but another key (a verifier that remembers "already verified" by issuer + serial would accept it)
+	fakeKey := genRSA(r, 2048)
+	fakeRootT := caTmpl("verif PIV Root CA", 1)
+	fakeRoot := mustCert(x509.CreateCertificate(rd, fakeRootT, fakeRootT, &fakeKey.PublicKey, fakeKey))
+	impKey := genRSA(r, 1024)
+	impT := &x509.Certificate{SerialNumber: new(big.Int).Set(good[0].cert.SerialNumber), Subject: good[0].cert.Subject,
+		NotBefore: okNB, NotAfter: okNA, KeyUsage: x509.KeyUsageCertSign | x509.KeyUsageDigitalSignature, IsCA: true, BasicConstraintsValid: true}
+	related = append(related, &device{"rsa1024-impostor-same-issuer-and-serial", mustCert(x509.CreateCertificate(rd, impT, fakeRoot, &impKey.PublicKey, fakeKey)), impKey, false})
 	// deterministic P-256 key (ecdsa.GenerateKey reads a random number of bytes from its reader)
 	ecD := make([]byte, 32)
 	r.Read(ecD)
